@@ -143,4 +143,33 @@ theorem data_from_own_address_is_rejected (E : Env) (data : Bytes) (h : Header) 
   have h1 : ¬ data.length > c.s.cfg.mps := by omega
   simp [h1, hd, hsrc]
 
+/-- **Payload of a dead sender is discarded.** When the sender of a datagram is not an active member after its
+    header was looked at — its identity is Down, or a newer identity of its address is listed (the update built
+    from the header lost the conflict) — nothing after the header is used: whatever the member section and the
+    custom broadcasts contain, the outcome is the one of `inactiveSender` (a TurnUndead is still honoured, the
+    sender may be told it is down), or the datagram is refused as undecodable. Neither its updates nor its custom
+    broadcasts are applied. -/
+theorem dead_sender_payload_is_discarded (E : Env) (data : Bytes) (c c1 : Ctx) (h : Header) (rest : Bytes)
+    (hlen : data.length ≤ c.s.cfg.mps) (hd : E.codec.decHeader data = some (h, rest))
+    (hsend : applyUpdate E ⟨h.src, h.srcInc, .alive⟩ true c = .ok false c1) :
+    handleData E data c = .err .fromOurselves c ∨ handleData E data c = .err .malformed c ∨
+    handleData E data c = .ok () c ∨ handleData E data c = .err .decode c ∨
+    handleData E data c = inactiveSender E h c1 := by
+  unfold handleData
+  have h1 : ¬ data.length > c.s.cfg.mps := by omega
+  simp only [bind_run, getS_run, h1, if_false, hd]
+  split
+  · exact Or.inl rfl
+  · split
+    · exact Or.inr (Or.inl rfl)
+    · split
+      · exact Or.inr (Or.inr (Or.inl rfl))
+      · generalize (if (decide (rest.length ≥ Gen.sectionMinBytes) && h.msg != .broadcast) = true then _ else some ([], rest) : Option (List Member × Bytes)) = parsed
+        cases parsed with
+        | none => exact Or.inr (Or.inr (Or.inr (Or.inl rfl)))
+        | some p =>
+          obtain ⟨updates, tail⟩ := p
+          right; right; right; right
+          simp [hsend]
+
 end Foca.C09
